@@ -9,7 +9,7 @@ from collections import Counter
 HARNESSES = [
     ("crypto/storage/fs", ["crypto/storage/fs/zz_verif_c03_test.go"], "c03fs"),
     ("crypto/storage/vault", ["crypto/storage/vault/zz_verif_c03_test.go"], "c03vault"),
-    ("crypto", ["crypto/zz_verif_c03_test.go"], "c03ks"),
+    ("crypto", ["crypto/zz_verif_c03_test.go", "crypto/zz_verif_c03cfg_test.go"], "c03ks"),
     ("crypto/storage/external", ["crypto/storage/external/zz_verif_c03_test.go"], "c03ext"),
     ("crypto/api/v1", ["crypto/api/v1/zz_verif_c03_test.go", "crypto/api/v1/zz_verif_c03b_test.go"], "c03api"),
 ]
@@ -34,6 +34,11 @@ REQUIRED = [
     "api_signjwt_200_only_by_key_id", "api_unknown_kid_is_400", "api_invalid_request_independent_of_store", "api_decrypt_200_only_by_key_id",
     "fact_dpop_sign_overwrites_jwk", "dpop_jwk_is_signing_key",
     "api_sign_response_independent_of_key_material", "fact_fs_list_callback",
+    # deepening round 2: backend wiring (NutsProofs.Props.C03Cfg)
+    "fact_configure_switch_shape", "fact_every_setup_wraps_ctor_result", "fact_storage_types", "fact_backend_constructor_guards",
+    "configured_backend_validates", "configured_backend_refuses_invalid_names", "configured_fs_backend_confined",
+    "configure_strict_needs_explicit_storage", "configure_default_is_fs", "configure_unknown_storage", "configure_backend_kind",
+    "configure_failure_keeps_backend", "azure_new_ok", "vault_new_ok",
     "fact_external_name_to_path", "external_target_confined", "external_valid_name_not_dot_segment", "fs_list_roundtrip", "fs_listed_name_shape", "fs_list_separator_not_checked",
 ]
 
@@ -69,7 +74,7 @@ def go_clean(p: bytes) -> bytes:
 def run(ctx):
     ctx.level = "partial"
     ctx.facts()
-    thms = ctx.build_and_audit(["NutsProofs.Props.C03", "NutsProofs.Props.C03Api"])
+    thms = ctx.build_and_audit(["NutsProofs.Props.C03", "NutsProofs.Props.C03Api", "NutsProofs.Props.C03Cfg"])
     for r in REQUIRED:
         if not any(t.endswith("Props." + r) for t in thms):
             ctx.oblige("thm-present:" + r, False, "theorem missing or its module does not build")
@@ -111,7 +116,7 @@ def run(ctx):
             env["VERIF_REPLAY"] = os.path.abspath(ctx.replay)
         else:
             env["VERIF_CORPUS"] = corpus
-        rc, log, out = ctx.run_harness(binary, "TestVerifC03", env, timeout=3000)
+        rc, log, out = ctx.run_harness(binary, "TestVerifC03(Cfg)?" if part == "ks" else "TestVerifC03", env, timeout=3000)
         if rc != 0:
             ctx.oblige(f"harness-runs:{part}", False, log[-1500:])
             continue
@@ -147,6 +152,15 @@ def run(ctx):
         impl, model, bad = ctx.compare(impl_p, model_p)
         ops = ctx.read_lines(ops_p)
         outs[part] = (ops, impl, model, bad, out)
+        if part == "ks":   # the wiring leg is a second test function of the same binary
+            cops, cimpl, cmodel = (os.path.join(out, f"cfg_{x}") for x in ("ops.jsonl", "impl.out", "model.out"))
+            if not os.path.exists(cops):
+                ctx.oblige("harness-runs:cfg", False, "cfg_ops.jsonl missing")
+            else:
+                ok, err = ctx.model("C03", cops, cmodel)
+                ctx.oblige("model-driver-runs:cfg", ok, err[-500:])
+                impl, model, bad = ctx.compare(cimpl, cmodel)
+                outs["cfg"] = (ctx.read_lines(cops), impl, model, bad, out)
 
     total = 0
     distinct = set()
@@ -609,6 +623,57 @@ def run(ctx):
         ctx.oblige("oracle:api-200-only-by-bound-kid-with-requested-kid-header-no-jwk(impl)", api_bad == 0, f"{api_bad}")
         dist["rest_wrapper"] = {"ops": dict(kinds), "outcomes": dict(outcomes)}
 
+    # ------------------------------------------------------------------ backend wiring: Configure
+    if "cfg" in outs:
+        ops, impl, model, bad, out = outs["cfg"]
+        total += len(impl)
+        kinds = Counter()
+        cfg_bad = 0
+        KIND = {"fs": "*fs.fileSystemBackend", "": "*fs.fileSystemBackend", "vaultkv": "vault.vaultKVStorage",
+                "azure-keyvault": "*azure.Keyvault", "external": "*external.APIClient"}
+        for i, line in enumerate(impl):
+            op = json.loads(ops[i]) if i < len(ops) and ops[i] else {}
+            distinct.add(("cfg", ops[i]))
+            st, strict, name = op.get("storage"), op.get("strict"), op.get("probe")
+            m = re.fullmatch(r"configure res=(ok|err:.*?) backend=(nil|wrapped:(true|false) inner=(\S+) (probe=.*))", line, re.S)
+            why = None
+            if not m:
+                why = "panic-or-garbage"
+            else:
+                res, installed = m.group(1), m.group(2) != "nil"
+                kinds[("ok:" + m.group(4)) if installed else res[:44]] += 1
+                if installed and m.group(3) != "true":
+                    why = "backend-installed-without-the-validating-wrapper"
+                elif installed != (res == "ok"):
+                    why = "backend-and-error-disagree"
+                elif installed and st not in KIND:
+                    why = "unknown-storage-setting-installed-a-backend"
+                elif installed and KIND[st] != m.group(4):
+                    why = "storage-setting-installed-another-backend-kind"
+                elif installed and st == "" and strict:
+                    why = "strict-mode-installed-the-default-backend"
+                elif not installed and st in KIND and not (st == "" and strict) and op.get("datadir") == "ok" and op.get("vLookup") == "data" \
+                        and op.get("vAddr") == "ok" and op.get("extAddr") == "ok" and op.get("azUrl") and op.get("azCred") in ("default", "managed_identity"):
+                    why = "healthy-configuration-refused"
+                elif installed and name is not None:
+                    pr = m.group(5)
+                    nb = name.encode()
+                    plain = re.fullmatch(rb"[\w:#. %-]+", nb) is not None and nb not in (b".", b"..") and "\n" not in name
+                    if pr.startswith("probe=forwarded") and not plain:
+                        why = "name-outside-the-namespace-reached-the-configured-backend"
+                    elif pr.startswith("probe=refused") and "reqs=0" not in pr:
+                        why = "refused-name-caused-a-request"
+                    elif "ODD-REQUEST" in pr:
+                        why = "request-outside-the-key-namespace"
+                    elif pr.startswith("probe=forwarded") and KIND[st] == "*fs.fileSystemBackend" and not pr.endswith(" file=crypto/%s_private.pem" % name):
+                        why = "fs-key-file-not-in-datadir/crypto"
+            if why:
+                cfg_bad += 1
+                found_violation |= ctx.violation(f"C03:cfg:{why}", f"Configure(storage={st!r}, strict={strict}) then backend call for name {name!r}: {line[:300]}",
+                                                 "cfg-wiring.jsonl", ops[i])
+        ctx.oblige("oracle:configured-backend-is-the-validating-wrapper-of-the-configured-kind(impl)", cfg_bad == 0, f"{cfg_bad}")
+        dist["configure"] = {"ops": len(impl), "outcomes": {str(k): v for k, v in kinds.most_common(24)}}
+
     # ------------------------------------------------------------------ correspondence
     nbad = 0
     for part, (ops, impl, model, bad, out) in outs.items():
@@ -646,6 +711,8 @@ def run(ctx):
                        "vs NutsModel/C03/Api.lean composed with the key store model (status, problem detail, signing key, signed header). "
                        "(e) the same dpop.DPoP signed for 2-3 kids with/without a pre-set (private) jwk header; fs save under faults (name taken, key dir gone) with TMPDIR watched; ListPrivateKeys over generated file trees. "
                        "(f) external secret-store backend behind the wrapper against a recording loopback server: request targets vs pathEscape∘pathEscape model. "
+                       "(g) backend wiring: real NewCryptoInstance+Configure for listed / unknown / case- and blank-variant storage settings x strict mode x constructor faults (Vault token lookup data/empty/404/403 "
+                       "from a loopback server, bad addresses, data dir that is a file, Azure URL / credential variants), then a call by valid / path-like name on the installed backend, vs NutsModel/C03/Configure.lean interpreting the regenerated switch. "
                        "distinct_nontrivial = distinct names / (dir,name) / (prefix,name) / key-store ops by position / header maps")
     ctx.cov["input_distribution"] = dist
     if "fs" in outs and outs["fs"][1]:
